@@ -654,6 +654,44 @@ def gen_history_renames(rng, n_renames=4):
     return hist
 
 
+def gen_history_arrivals(rng, n=3):
+    """Directed family: directories WITH content arrive (moved in from outside, or created as a nested burst) and are renamed
+    again right away - before the reader/emitter has looked at them (allowed by the pacing condition: 'a directory may be
+    renamed again right after it arrived'); the emitter then walks a path that no longer exists."""
+    sh = Shadow()
+    hist = []
+    fresh = iter(["m%d" % i for i in range(40)])
+
+    def do(kind, p, q=None):
+        if sh.apply(kind, tuple(p), tuple(q) if q else None):
+            hist.append(["op", kind, list(p)] + ([list(q)] if q else []))
+            return True
+        return False
+    for _ in range(n):
+        par = rng.choice(sh.dirs("R"))
+        a, b = par + (next(fresh),), par + (next(fresh),)
+        if rng.random() < 0.6:
+            o = ("O", next(fresh))
+            do("mkdir", o)
+            do("mkdir", o + ("s",))
+            do("touch", o + ("f",))
+            if rng.random() < 0.5:
+                do("touch", o + ("s", "g"))
+            hist.append(["drain"])
+            do("rename", o, a)
+        else:
+            do("mkdir", a)
+        if rng.random() < 0.8:
+            do("rename", a, b)               # right after it arrived
+        hist.append(["drain"])
+        if rng.random() < 0.5:
+            d = b if tuple(b) in sh.ent else a
+            do("touch", tuple(d) + ("h",))
+            hist.append(["drain"])
+    hist.append(["drain"])
+    return hist
+
+
 def gen_history_filechurn(rng, n_ops=10):
     """Directed family: bursts of FILE operations (unlimited by the pacing condition) on very few names in one or two
     directories - create/delete/re-create, create/rename/re-create, replace by rename, move out and back - read by the
